@@ -35,10 +35,11 @@ from .tlc import Scratch, parse_tla_tuple, run_tlc, write_cfg
 PID = "C13"
 
 TIERS = {
-    "quick": dict(model=dict(D=3, MaxDeg=2, MaxTerms=2, EmitDeg=0, EmitTerms=0, Regions="<-RegionsQuick"),
+    "quick": dict(models=[dict(D=3, MaxDeg=2, MaxTerms=2, EmitDeg=0, EmitTerms=0, Regions="<-RegionsQuick")],
                   emits=[dict(D=3, MaxDeg=2, MaxTerms=1, EmitDeg=2, EmitTerms=1, Regions="<-RegionsQuick")],
                   curved=False),
-    "thorough": dict(model=dict(D=3, MaxDeg=3, MaxTerms=2, EmitDeg=0, EmitTerms=0, Regions="<-RegionsAll"),
+    "thorough": dict(models=[dict(D=3, MaxDeg=3, MaxTerms=2, EmitDeg=0, EmitTerms=0, Regions="<-RegionsQuick"),
+                             dict(D=3, MaxDeg=3, MaxTerms=1, EmitDeg=0, EmitTerms=0, Regions="<-RegionsAll")],
                      emits=[dict(D=3, MaxDeg=3, MaxTerms=1, EmitDeg=3, EmitTerms=1, Regions="<-RegionsAll"),
                             dict(D=3, MaxDeg=2, MaxTerms=2, EmitDeg=2, EmitTerms=2, Regions="<-RegionsQuick")],
                      curved=True),
@@ -514,7 +515,8 @@ def validate_trace(run: Run, sc, records, label):
 def selftest_trace(run: Run, sc, records):
     """Binding self-test: the orientation flag of one accepted record with a non-zero value is flipped; TLC must
     reject exactly that record."""
-    nonzero = [dict(r) for r in records if r["num"] == 1 and (r["q"][0] != 0 or r["p"][0] != 0)][:20]
+    nonzero = [dict(r) for r in records if r["num"] == 1 and (r["q"][0] != 0 or r["p"][0] != 0)
+               and r["reg"]["k"] in ("ell", "rect", "box", "tri")][:20]
     if not nonzero:
         return
     sample = [dict(r) for r in records if r["num"] == 1][:20] + nonzero
@@ -555,12 +557,13 @@ def main() -> int:
     run = Run(PID, tier)
     _init()
     with Scratch() as sc, make_pool() as pool:
-        cfg = write_cfg(sc / "int_model.cfg", init="IInit", next_="INext", constants=t["model"],
-                        invariants=MODEL_INVARIANTS)
-        res = run_tlc("Integrals", cfg, sc, workers=8, coverage=True, allow_violation=False)
-        run.add_tlc(res, f"model check Integrals: {MODEL_INVARIANTS} on (vector fields: sums of <= "
-                         f"{t['model']['MaxTerms']} basis monomials of degree <= {t['model']['MaxDeg']}) x "
-                         f"({t['model']['Regions'][2:]})")
+        for n, model in enumerate(t["models"]):
+            cfg = write_cfg(sc / f"int_model{n}.cfg", init="IInit", next_="INext", constants=model,
+                            invariants=MODEL_INVARIANTS)
+            res = run_tlc("Integrals", cfg, sc, workers=8, coverage=True, allow_violation=False)
+            run.add_tlc(res, f"model check Integrals: {MODEL_INVARIANTS} on (vector fields: sums of <= "
+                             f"{model['MaxTerms']} basis monomials of degree <= {model['MaxDeg']}) x "
+                             f"({model['Regions'][2:]})")
         records = []
         for n, emit in enumerate(t["emits"]):
             cfg2 = write_cfg(sc / f"int_emit{n}.cfg", init="IInit", next_="INext", constants=emit,
@@ -589,7 +592,7 @@ def main() -> int:
                     else:
                         run.violation(key, what, res["case"])
             run.coverage["trigonometric_field_calls_decided_by_harness_outside_TLC_fragment"] = n_trig
-    run.coverage["bounds"] = {"model": t["model"], "emissions": t["emits"], "trace_D": TRACE_D,
+    run.coverage["bounds"] = {"models": t["models"], "emissions": t["emits"], "trace_D": TRACE_D,
                               "variants": {"curve": ["std", "retime (t -> 2t)", "shift (t -> t + c)", "rev"],
                                            "surface": ["std", "retime", "rev (parameters swapped)"] +
                                                       (["curved surface with the same boundary"] if t["curved"] else []),
